@@ -1,6 +1,5 @@
 use std::collections::BTreeMap;
 
-use quote::{format_ident, quote};
 use syn::{spanned::Spanned, Data, DeriveInput, Field, Fields, Ident, Meta, Path, Type};
 
 use super::{
